@@ -17,7 +17,7 @@ EXTENDS ErrSystem, TLC, Json
 TraceLog == ndJsonDeserialize("trace.ndjson")
 
 VARIABLE l
-tvars == <<slots, net, reg, taint, l>>
+tvars == <<slots, net, reg, taint, procs, l>>
 
 D == Deviations
 
@@ -288,6 +288,41 @@ ReportFault(ev) ==
   /\ Chk(o.panic # "" \/ ~o.nil, ev, "decode.nil", "verdict", {"C05"}, FALSE, o.nil)
   /\ Chk(o.obsPanics = <<>>, ev, "observer.panic", "verdict", {"C05"}, <<>>, o.obsPanics)
 
+\* ---- stacks and package domains are attributed to the right caller (C16)
+ReportStack(ev) ==
+  LET o == ev.obs.stack
+      api == ev.step.s[1]
+      d == ev.step.n
+      row == ApiTable({})[api]
+      want == Prescribed(api, d, {})
+  IN
+  /\ Chk(ev.obs.panic = "" /\ o.ok, ev, "stack.call", "verdict", {"C16"}, TRUE, [panic |-> ev.obs.panic, ok |-> o.ok])
+  /\ IF row.kind = "stack"
+     THEN /\ Chk(o.frame = want, ev, "stack.frame", "verdict", {"C16"}, want, o.frame)
+          /\ Chk(o.frameLine = o.wantLine, ev, "stack.line", "verdict", {"C16"}, o.wantLine, o.frameLine)
+          /\ Chk(o.source = [fn |-> want, line |-> o.wantLine, file |-> PkgOf(want) \o ".go"], ev, "stack.source",
+                 "verdict", {"C16"}, [fn |-> want, line |-> o.wantLine, file |-> PkgOf(want) \o ".go"], o.source)
+     ELSE Chk(o.domain = PkgOf(want), ev, "stack.domain", "verdict", {"C16"}, PkgOf(want), o.domain)
+  \* conformance of the transcribed arithmetic
+  /\ LET code == Captured(api, d, D) IN
+     Chk((IF row.kind = "stack" THEN o.frame ELSE o.domain) = (IF row.kind = "stack" THEN code ELSE PkgOf(code)),
+         ev, "stack.table", "conf", {}, code, o)
+
+\* ---- type renames across code versions (C17)
+ReportMig(ev, r) ==
+  LET st == ev.step o == ev.obs.mig IN
+  IF st.op = "ProcInit" THEN TRUE
+  ELSE IF st.op = "RegMig"
+  THEN Chk(o.panic = r.panic, ev, "mig.duplicate", "verdict", {"C17"}, r.panic, o.panic)
+  ELSE LET want == MigObs(st.dst, r.sl, r.pr) IN
+       /\ Chk(ev.obs.panic = "", ev, "mig.panic", "verdict", {"C17"}, "", ev.obs.panic)
+       \* encoded under the original name / shown under the original family
+       /\ Chk(o.fam = want.fam, ev, "mig.family", "verdict", {"C17"}, want.fam, o.fam)
+       \* decoded to the local type
+       /\ Chk(o.ty = want.ty, ev, "mig.type", "verdict", {"C17"}, want.ty, o.ty)
+       \* Is across versions
+       /\ Chk(o.is = want.is, ev, "mig.is", "verdict", {"C17"}, want.is, o.is)
+
 TInit == Init /\ l = 1
 
 TNext ==
@@ -296,16 +331,26 @@ TNext ==
          st == ev.step
          base == IF ev.first THEN [i \in 1..NSlots |-> Nil] ELSE slots
          tbase == IF ev.first THEN [i \in 1..NSlots |-> NoTaint] ELSE taint
-         new == [base EXCEPT ![st.dst] = Build(st, base, reg)]
+         pbase == IF ev.first THEN NoProcs ELSE procs
+     IN
+     IF st.op \in MigOps
+     THEN LET r == MigApply(st, base, pbase) IN
+          /\ r.ok
+          /\ slots' = r.sl /\ procs' = r.pr /\ taint' = tbase
+          /\ ReportMig(ev, r)
+     ELSE
+     LET new == [base EXCEPT ![st.dst] = Build(st, base, reg)]
          tn == TaintOf(st, base, tbase, new[st.dst])
          \* a hop whose recorded text diverges (reported as hop.skel) suspends predictions
          diverged == /\ st.op = "Hop" /\ ~ev.obs.nil /\ ~ev.pre.nil /\ ~tn.h
                      /\ DiffSites(ev.pre.tree, ev.obs.tree) # {}
      IN /\ Enabled(st, base)
         /\ slots' = new
+        /\ procs' = pbase
         /\ taint' = [tbase EXCEPT ![st.dst] = [tn EXCEPT !.dv = tn.dv \/ diverged]]
         /\ IF st.op = "Hop" THEN ReportHop(ev, base, new, tn)
            ELSE IF st.op \in {"DecodeFault", "DecodeFuzz"} THEN ReportFault(ev)
+           ELSE IF st.op = "StackCall" THEN ReportStack(ev)
            ELSE ReportBuild(ev, new, tn)
   /\ l' = l + 1
   /\ UNCHANGED <<net, reg>>
